@@ -3,7 +3,7 @@ sendToken, type bytes and limits.  Used by C01, C07, C11, C12, C15."""
 import ast
 from translate import pylite as P
 
-PROPERTIES = ["C01", "C07", "C11", "C12", "C15", "C02", "C10"]
+PROPERTIES = ["C01", "C07", "C11", "C12", "C15", "C02", "C10", "C03", "C04"]
 OUTPUTS = ["BananaGen.v"]
 
 TOKNAMES = ["LIST", "INT", "STRING", "NEG", "FLOAT", "VOCAB", "OPEN", "CLOSE", "ABORT",
